@@ -91,6 +91,10 @@ func genC14(tier string, seed uint64, idx int) *simkit.Plan {
 		}
 	}
 	round.A["writes"] = int64(rng.Intn(3))
+	if rng.Chance(1, 5) {
+		// further vacuum requests arrive while the round is running (the periodic ticker plus volume.vacuum / /vol/vacuum calls)
+		round.A["extra"] = int64(rng.Range(1, 3))
+	}
 	p.Add(round)
 	for i, n := 0, rng.Range(0, 2); i < n; i++ {
 		p.Add(simkit.St("put", rng.Uint64(), "size", rng.Range(50, 500)))
@@ -310,6 +314,8 @@ func c14round(r *simkit.Run, n *Net, m *Master, vss []*VS, vid needle.VolumeId, 
 		m.MS.Topo.Vacuum(grpc.WithInsecure(), 0.3, 0)
 		close(done)
 	}()
+	extra := int(st.Int("extra"))
+	var extraDone []chan struct{}
 	r.Log("vacuum round starts (writable before: %v)", before)
 	r.Abs("vacuum")
 	r.NonTrivial()
@@ -330,6 +336,19 @@ func c14round(r *simkit.Run, n *Net, m *Master, vss []*VS, vid needle.VolumeId, 
 			// nothing parked and the round not finished: only timers can make progress
 			time.Sleep(10 * time.Second)
 			continue
+		}
+		for ; extra > 0; extra-- {
+			// another vacuum request while the round is in progress: it has to bounce off the running one
+			ed := make(chan struct{})
+			extraDone = append(extraDone, ed)
+			go func() {
+				m.MS.Topo.Vacuum(grpc.WithInsecure(), 0.3, 0)
+				close(ed)
+			}()
+			simkit.Wait()
+			r.Log("another vacuum request arrives while the round is running")
+			r.Fault("vacuum-request-while-a-round-is-running")
+			pend = n.Pending()
 		}
 		// choose who goes next
 		msg := pend[rng.Intn(len(pend))]
@@ -356,6 +375,9 @@ func c14round(r *simkit.Run, n *Net, m *Master, vss []*VS, vid needle.VolumeId, 
 		if msg.Phase == "resp" && ph == "compact" && verdict.Kind == "ok" {
 			compactAcked[msg.Dest] = true // (an RPC error from the server side also passes here; see below)
 		}
+		if msg.Phase == "req" && ph == "cleanup" && verdict.Kind == "ok" {
+			compactAcked[msg.Dest] = false // the replica's compaction result is discarded: a later commit has nothing to commit
+		}
 		r.Log("release %s %s %s -> %s delay=%v", msg.Dest, ph, msg.Phase, verdict.Kind, verdict.Delay)
 		r.Abs(fmt.Sprintf("%s:%s:%s", ph, msg.Phase, verdict.Kind))
 		n.Release(msg, verdict)
@@ -376,6 +398,14 @@ func c14round(r *simkit.Run, n *Net, m *Master, vss []*VS, vid needle.VolumeId, 
 	default:
 		r.HarnessError("vacuum round did not finish")
 		return
+	}
+	for _, ed := range extraDone {
+		select {
+		case <-ed:
+		default:
+			r.HarnessError("an additional vacuum request did not finish")
+			return
+		}
 	}
 	afterNow := writable()
 	time.Sleep(16 * time.Second) // three heartbeat pulses
